@@ -438,9 +438,11 @@ async fn boot_case(rng: &mut Rng, sum: &mut Summary) -> Option<BootCase> {
     let cfg = match rng.below(4) { 0 | 1 => Cfg::from_real(&IPDiversityConfig::default(), 1, 200, "default"), _ => random_cfg(rng) };
     let dir = tempfile::tempdir().ok()?;
     let big = 1_000_000u32;
+    // in a third of the walks the global join limiter is tight: joins refused by it must leave every diversity counter alone
+    let burst = if rng.chance(1, 3) { rng.range(2, 5) as u32 } else { big };
     let bc = BootstrapConfig { cache_dir: dir.path().to_path_buf(), max_peers: 1000, epsilon: 0.0,
         rate_limit: JoinRateLimiterConfig { max_joins_per_64_per_hour: big, max_joins_per_48_per_hour: big, max_joins_per_24_per_hour: big,
-                                            max_global_joins_per_minute: big, global_burst_size: big },
+                                            max_global_joins_per_minute: if burst == big { big } else { 1 }, global_burst_size: burst },
         diversity: cfg.real() };
     let mgr = BootstrapManager::with_config(bc).await.ok()?;
     let pool = make_pool(rng, 3, 2, 2, 2, 2, 2, 2);
@@ -449,9 +451,22 @@ async fn boot_case(rng: &mut Rng, sum: &mut Summary) -> Option<BootCase> {
     let n = rng.range(4, 24);
     for i in 0..n {
         let ip = match i { 0 => Ip::V4(0x0a01_0203), 1 => Ip::V4(0xc633_6407), _ => pool.pick(rng) };
+        let before = stats_vec(&mgr.verif_diversity_stats());
         let r = match mgr.add_peer(format!("peer-{}", i), vec![SocketAddr::new(ip.std(), 9000 + i as u16)]).await {
             Ok(()) => 1,
-            Err(e) => { let s = e.to_string(); if !s.contains("IP diversity limits exceeded") { other = Some(s); } 0 }
+            Err(e) => {
+                let s = e.to_string();
+                if burst != big && !s.contains("IP diversity limits exceeded") {
+                    // refused by the join rate limiter: an admission that fails part-way consumes nothing
+                    let after = stats_vec(&mgr.verif_diversity_stats());
+                    sum.count("bootstrap:add:rate-limited");
+                    if after != before {
+                        sum.violation(0, "a join refused by the rate limiter kept its diversity slots (admission that fails part-way must consume none)", &[],
+                            json!({"ip": format!("{:?}", ip.std()), "error": s, "stats_before": before, "stats_after": after}));
+                    }
+                    continue;
+                }
+                if !s.contains("IP diversity limits exceeded") { other = Some(s); } 0 }
         };
         sum.count(if r == 1 { "bootstrap:add:ok" } else { "bootstrap:add:refused" });
         ops.push((ip, r, stats_vec(&mgr.verif_diversity_stats())));
